@@ -314,6 +314,22 @@ fn norm_panic(s: &str) -> String {
 
 struct Finding { class: String, key: String, detail: String, input: String }
 
+/// (flag, garbage value, extra flags): options whose value is spliced into Rust tokens
+/// (known finding token_option_not_validated is re-observed through these probes only; the
+/// random option sets use well-formed values for them)
+const GARBAGE_TOKEN_OPTIONS: &[(&str, &str, &[&str])] = &[
+    ("--ctypes-prefix", "a b", &[]),
+    ("--dynamic-loading", "a b", &[]),
+    ("--extern-fn-block-attrs", "1", &["--merge-extern-blocks"]),
+    ("--anon-fields-prefix", "a b", &[]),
+    ("--with-attribute-custom", "S.*=1", &[]),
+    ("--with-derive-custom", "S.*=a b", &[]),
+    ("--wrap-static-fns-suffix", "a b", &["--experimental", "--wrap-static-fns"]),
+    ("--module-raw-line", "root", &["--enable-cxx-namespaces"]),
+    ("--raw-line", "this is ( not rust", &[]),
+    ("--wasm-import-module-name", "a\"b", &[]),
+];
+
 fn main() {
     let raw: Vec<String> = std::env::args().collect();
     if raw.len() >= 3 && raw[1] == "--worker" { worker(&raw[2]); return; }
@@ -425,7 +441,7 @@ fn main() {
     let fs_model = util::model(&fs_reqs);
     for ((name, p), m) in fs_cases.iter().zip(fs_model.iter()) {
         let ps = p.to_string_lossy().into_owned();
-        let r1 = std::panic::catch_unwind(|| bindgen::builder().header(ps.clone()).generate().map(|b| b.to_string().len()));
+        let r1 = std::panic::catch_unwind(|| bindgen::builder().header(ps.clone()).detect_include_paths(false).generate().map(|b| b.to_string().len()));
         evals += 1;
         let real = match &r1 {
             Ok(Ok(_)) => "proceed:ok".to_owned(),
@@ -459,7 +475,7 @@ fn main() {
         for minor in (51u64..=95).map(Some).chain(std::iter::once(None)) {
             let tgt = match minor { Some(m) => match bindgen::RustTarget::stable(m, 0) { Ok(t) => t, Err(_) => continue }, None => bindgen::RustTarget::nightly() };
             let ed = *ed;
-            let r1 = std::panic::catch_unwind(move || bindgen::builder().header_contents("e.h", "int x;").rust_target(tgt).rust_edition(ed).generate().map(|_| ()));
+            let r1 = std::panic::catch_unwind(move || bindgen::builder().header_contents("e.h", "int x;").detect_include_paths(false).rust_target(tgt).rust_edition(ed).generate().map(|_| ()));
             evals += 1;
             ed_real.push(match r1 { Ok(Ok(())) => "proceed", Ok(Err(bindgen::BindgenError::UnsupportedEdition(..))) => "unsupportedEdition", Ok(Err(_)) => "other-error", Err(_) => "panic" });
             ed_reqs.push(format!("entry edition {name} {}", minor.map_or("nightly".to_owned(), |m| m.to_string())));
@@ -509,7 +525,19 @@ fn main() {
         std::fs::write(&path, &cur).unwrap();
         pre.extend(["--formatter".to_owned(), "none".to_owned()]);
         if id % 4 != 0 { pre.push("--no-include-path-detection".into()); }
-        clang.retain(|f| !f.starts_with("-I") && !f.starts_with("-include"));
+        {
+            // drop include-path / forced-include arguments together with their values (the
+            // mutant lives in a scratch directory)
+            let mut kept = vec![];
+            let mut skip = false;
+            for f in clang.drain(..) {
+                if skip { skip = false; continue; }
+                if f == "-include" || f == "-I" || f == "-isystem" || f == "-iquote" { skip = true; continue; }
+                if f.starts_with("-I") || f.starts_with("-include") { continue; }
+                kept.push(f);
+            }
+            clang = kept;
+        }
         mutants.push(Mutant { id, path, clang, pre, op, origin });
     }
     let jobs: Vec<Job> = mutants.iter().map(|m| {
@@ -539,6 +567,7 @@ fn main() {
     let mut table: BTreeMap<String, usize> = BTreeMap::new(); // "<clang> / <bindgen>"
     let mut distinct_shapes = std::collections::BTreeSet::new();
     let mut accepted_err_examples: Vec<String> = vec![];
+    let mut k5_hits = 0usize;
     for m in &mutants {
         let out = res.get(&m.id).cloned().unwrap_or_else(|| "not-run".into());
         let (acc, first) = vmap.get(&m.id).cloned().unwrap_or((false, String::new()));
@@ -548,7 +577,9 @@ fn main() {
         let input = || format!("{{\"mode\":\"mutant\",\"origin\":{},\"operator\":{},\"header_name\":{},\"text\":{},\"pre\":[{}],\"clang\":[{}]}}", json_str(&m.origin), json_str(m.op),
             json_str(&m.path.file_name().unwrap().to_string_lossy()), json_str(&std::fs::read_to_string(&m.path).unwrap_or_default()),
             m.pre.iter().map(|s| json_str(s)).collect::<Vec<_>>().join(","), m.clang.iter().map(|s| json_str(s)).collect::<Vec<_>>().join(","));
-        if out.starts_with("panic") || out.starts_with("abort") || out == "timeout" || out == "not-run" {
+        if out.starts_with("panic") && out.contains("libclang error; possible causes include") {
+            k5_hits += 1;
+        } else if out.starts_with("panic") || out.starts_with("abort") || out == "timeout" || out == "not-run" {
             let key = if out.starts_with("panic") { norm_panic(&out) } else { out.split(' ').next().unwrap_or("").to_owned() };
             if !findings.iter().any(|f| f.key == key) {
                 findings.push(Finding { class: if acc { "accepted-header".into() } else { "rejected-header".into() }, key, detail: format!("mutant of {} ({}; clang {}): {}", m.origin, m.op, if acc { "accepts" } else { "rejects" }, out.chars().take(400).collect::<String>()), input: input() });
@@ -594,12 +625,42 @@ fn main() {
             nmeta.push((id, sh.to_string(), d, p, cpp, flags));
         }
     }
+    // probes that only wait run beside the nesting jobs
+    let probe_thread = {
+        let ndir = ndir.clone();
+        let t_h = probe_h.clone();
+        std::thread::spawn(move || {
+            let (text, _) = cgen::nested("struct", 30);
+            let p = ndir.join("struct_probe_30.h");
+            std::fs::write(&p, &text).unwrap();
+            let (v, _e) = cli_timeout(&[p.to_string_lossy().into_owned(), "--formatter".into(), "none".into(), "--no-include-path-detection".into()], 20, None);
+            let (k5v, k5e) = cli_timeout(&[t_h.to_string_lossy().into_owned(), "--".into(), "-std=c99x".into()], 30, None);
+            (v, k5v, k5e)
+        })
+    };
     let nres = run_jobs(&njobs, nworkers, &work.0, Duration::from_secs(60));
     evals += njobs.len();
     let mut nest_table: BTreeMap<String, usize> = BTreeMap::new();
-    for (id, sh, d, p, cpp, flags) in &nmeta {
+    let nacc: Vec<bool> = {
+        let nn = AtomicUsize::new(0);
+        let out: Mutex<Vec<(usize, bool)>> = Mutex::new(vec![]);
+        std::thread::scope(|s| {
+            for _ in 0..nworkers {
+                s.spawn(|| loop {
+                    let i = nn.fetch_add(1, Ordering::SeqCst);
+                    if i >= nmeta.len() { break; }
+                    let (acc, _f) = clang_accepts(&nmeta[i].3, &if nmeta[i].4 { vec!["-std=c++14".to_owned()] } else { vec![] });
+                    out.lock().unwrap().push((i, acc));
+                });
+            }
+        });
+        let mut v = out.into_inner().unwrap();
+        v.sort();
+        v.into_iter().map(|x| x.1).collect()
+    };
+    for (ni, (id, sh, d, _p, _cpp, flags)) in nmeta.iter().enumerate() {
         let out = nres.get(id).cloned().unwrap_or_else(|| "not-run".into());
-        let (acc, _f) = clang_accepts(p, &if *cpp { vec!["-std=c++14".to_owned()] } else { vec![] });
+        let acc = nacc[ni];
         let kind = out.split(' ').take(if out.starts_with("err") { 2 } else { 1 }).collect::<Vec<_>>().join(" ");
         *nest_table.entry(format!("{sh}: {} / {kind}", if acc { "accepted" } else { "rejected" })).or_insert(0) += 1;
         let bad = out.starts_with("panic") || out.starts_with("abort") || out == "timeout" || out == "not-run" || (acc && out.starts_with("err")) || (!acc && out.starts_with("ok"));
@@ -612,20 +673,27 @@ fn main() {
         }
     }
     // probe of the known exponential region: depth 30 of named nested records, 20 s budget
-    let mut nested_record_probe = String::new();
-    {
-        let (text, _) = cgen::nested("struct", 30);
-        let p = ndir.join("struct_probe_30.h");
-        std::fs::write(&p, &text).unwrap();
-        let (v, _e) = cli_timeout(&[p.to_string_lossy().into_owned(), "--formatter".into(), "none".into(), "--no-include-path-detection".into()], 20, None);
-        evals += 1;
-        nested_record_probe = v;
-    }
+    let (nested_record_probe, k5_probe, k5_probe_e) = probe_thread.join().unwrap();
+    evals += 2;
+    let k5_probe_known = k5_probe == "panic" && k5_probe_e.contains("libclang error");
     // a few of the deepest through the CLI under a timeout (stack overflow / abort observation point)
     let mut cli_nest: BTreeMap<String, usize> = BTreeMap::new();
-    for (_, sh, d, _p, _cpp, flags) in nmeta.iter().filter(|m| m.2 == *depths.last().unwrap() && m.1 != "struct") {
-        let (v, e) = cli_timeout(flags, 60, None);
-        evals += 1;
+    let deepest: Vec<&(usize, String, usize, PathBuf, bool, Vec<String>)> = nmeta.iter().filter(|m| m.2 == *depths.last().unwrap() && m.1 != "struct").collect();
+    let dn = AtomicUsize::new(0);
+    let dres: Mutex<Vec<(usize, String, String)>> = Mutex::new(vec![]);
+    std::thread::scope(|s| {
+        for _ in 0..nworkers.min(6) {
+            s.spawn(|| loop {
+                let i = dn.fetch_add(1, Ordering::SeqCst);
+                if i >= deepest.len() { break; }
+                let (v, e) = cli_timeout(&deepest[i].5, 60, None);
+                dres.lock().unwrap().push((i, v, e));
+            });
+        }
+    });
+    evals += deepest.len();
+    for (i, v, e) in dres.into_inner().unwrap() {
+        let (_, sh, d, _p, _cpp, _flags) = deepest[i];
         *cli_nest.entry(v.clone()).or_insert(0) += 1;
         if v == "panic" || v == "timeout" || v.starts_with("signal") {
             let key = format!("cli-nesting-{sh}-{v}");
@@ -661,6 +729,11 @@ fn main() {
         if flag == "--default-macro-constant-type" { return (*r.pick(&["signed", "unsigned"])).to_owned(); }
         if flag == "--default-non-copy-union-style" { return (*r.pick(&["bindgen_wrapper", "manually_drop"])).to_owned(); }
         if flag == "--default-visibility" { return (*r.pick(&["private", "crate", "public"])).to_owned(); }
+        if flag == "--ctypes-prefix" { return (*r.pick(&["::core::ffi", "libc", "::std::os::raw"])).to_owned(); }
+        if flag == "--dynamic-loading" { return (*r.pick(&["Lib", "my_lib"])).to_owned(); }
+        if flag == "--extern-fn-block-attrs" { return "#[allow(dead_code)]".into(); }
+        if flag == "--anon-fields-prefix" { return (*r.pick(&["anon_", "__a"])).to_owned(); }
+        if flag == "--wrap-static-fns-suffix" { return "_w".into(); }
         if flag == "--override-abi" { return (*r.pick(&["fn.*=system", "fn1=C-unwind", ".*=C"])).to_owned(); }
         if flag == "--generate" { return (*r.pick(&["types", "functions,vars", "types,functions,vars,methods,constructors,destructors"])).to_owned(); }
         if flag == "--with-derive-custom" || flag.starts_with("--with-derive-custom-") { return "S.*=Clone".into(); }
@@ -668,7 +741,7 @@ fn main() {
         if flag == "--field-type-name-regex" || m.contains("REGEX") || m.contains("PATTERN") { return (*r.pick(&[".*", "S.*", "fn1", "E[0-9]+", "T.*|U.*", "(", "[a-", "S1$"])).to_owned(); }
         if flag == "--module-raw-line" { return "root".into(); }
         if m.contains("PATH") || m.contains("FILE") { return "/nonexistent/path".into(); }
-        if m.contains("PREFIX") || m.contains("SUFFIX") || m.contains("NAME") { return (*r.pick(&["x_", "", "__", "a b", "Lib"])).to_owned(); }
+        if m.contains("PREFIX") || m.contains("SUFFIX") || m.contains("NAME") { return (*r.pick(&["x_", "__", "Lib"])).to_owned(); }
         (*r.pick(&["x", "1", ".*", "S1=Foo", "crate"])).to_owned()
     };
     let optprogs: Vec<(PathBuf, Vec<String>)> = (0..8).map(|i| { let p = &progs[i % progs.len()]; let path = work.path(&format!("opt{i}.{}", p.ext())); std::fs::write(&path, p.text()).unwrap(); (path, p.clang_args()) }).collect();
@@ -705,17 +778,51 @@ fn main() {
     });
     evals += optsets.len();
     let mut opt_table: BTreeMap<String, usize> = BTreeMap::new();
+    let mut k4_hits = 0usize;
+    let mut k4_example = String::new();
     let mut flags_exercised = std::collections::BTreeSet::new();
     for (i, v, e) in ores.into_inner().unwrap() {
         *opt_table.entry(v.split(' ').next().unwrap_or("").to_owned()).or_insert(0) += 1;
         if v != "clap-reject" { for a in &optsets[i].1 { if a.starts_with("--") && a.len() > 2 { flags_exercised.insert(a.clone()); } } }
-        if v == "panic" || v == "timeout" || v.starts_with("signal") {
+        let args_i = &optsets[i].1;
+        let k4 = v == "panic" && e.contains("struct_layout.rs") && e.contains("subtract with overflow")
+            && args_i.iter().any(|a| a == "--explicit-padding") && args_i.iter().any(|a| a == "--disable-untagged-union")
+            && std::fs::read_to_string(&args_i[0]).map_or(false, |t| t.contains("union"));
+        if k4 {
+            k4_hits += 1;
+            if k4_example.is_empty() { k4_example = format!("{:?}", &args_i[1..]); }
+        } else if v == "panic" || v == "timeout" || v.starts_with("signal") {
             let key = if v == "panic" { format!("cli-panic: {}", e.split("panicked at").nth(1).unwrap_or(&e).chars().map(|c| if c.is_ascii_digit() { '#' } else { c }).take(100).collect::<String>()) } else { format!("cli-options-{v}") };
             if !findings.iter().any(|f| f.key == key) {
                 findings.push(Finding { class: "option-set".into(), key, detail: format!("CLI with option set {:?}: {v} [{e}]", &optsets[i].1[1..]), input: format!("{{\"mode\":\"options\",\"header_text\":{},\"args\":[{}]}}", json_str(&std::fs::read_to_string(&optsets[i].1[0]).unwrap_or_default()), optsets[i].1[1..].iter().map(|s| json_str(s)).collect::<Vec<_>>().join(",")) });
             }
         }
     }
+    // probes of the known findings of the option layer
+    let pk = work.path("known_probe.h");
+    std::fs::write(&pk, "struct S1 { int a; struct { int x; } b; };\nunion U { int a; int b : 9; };\nstatic inline int sfn1(int a) { return a; }\nint fn1(int);\n").unwrap();
+    let mut k3_panics: Vec<String> = vec![];
+    let mut k3_table: Vec<String> = vec![];
+    for (flag, val, extra) in GARBAGE_TOKEN_OPTIONS {
+        let mut args = vec![pk.to_string_lossy().into_owned(), "--formatter".to_owned(), "none".to_owned(), "--no-include-path-detection".to_owned()];
+        args.extend(extra.iter().map(|s| s.to_string()));
+        args.push(flag.to_string()); args.push(val.to_string());
+        if *flag == "--module-raw-line" { args.push("this is ( not rust".into()); }
+        let (v, e) = cli_timeout(&args, 30, Some(&work.0));
+        evals += 1;
+        k3_table.push(format!("{flag} {val:?}: {v}"));
+        if v == "panic" { k3_panics.push(format!("{flag} {val:?} [{}]", e.split("panicked at").nth(1).unwrap_or("").trim().chars().take(60).collect::<String>())); }
+        if v == "timeout" || v.starts_with("signal") {
+            findings.push(Finding { class: "option-set".into(), key: format!("garbage-{flag}-{v}"), detail: format!("{flag} {val:?}: {v} [{e}]"), input: format!("{{\"mode\":\"options\",\"header_text\":{},\"args\":[{}]}}", json_str(&std::fs::read_to_string(&pk).unwrap_or_default()), args[1..].iter().map(|s| json_str(s)).collect::<Vec<_>>().join(",")) });
+        }
+    }
+    let (k4_probe, k4_e) = cli_timeout(&[pk.to_string_lossy().into_owned(), "--formatter".into(), "none".into(), "--no-include-path-detection".into(), "--explicit-padding".into(), "--disable-untagged-union".into()], 30, Some(&work.0));
+    evals += 1;
+    let k4_probe_known = k4_probe == "panic" && k4_e.contains("struct_layout.rs") && k4_e.contains("subtract with overflow");
+    if k4_probe == "panic" && !k4_probe_known {
+        findings.push(Finding { class: "option-set".into(), key: "explicit-padding-probe-other-panic".into(), detail: k4_e.clone(), input: "{\"mode\":\"options\",\"header_text\":\"union U { int a; int b : 9; };\",\"args\":[\"--explicit-padding\",\"--disable-untagged-union\"]}".into() });
+    }
+    samples.push(format!("garbage values for token-spliced options: {:?}", k3_table));
     samples.push(format!("option sets: {} sets over a flag space of {} flags parsed from --help ({} exercised in accepted command lines); verdicts {:?}", optsets.len(), flagspace.len(), flags_exercised.len(), opt_table));
     phase_t.push(("options".into(), t0.elapsed().as_secs_f64()));
 
@@ -739,6 +846,9 @@ fn main() {
     kv(&mut j, "accepted_but_error_examples", format!("[{}]", accepted_err_examples.iter().take(8).map(|s| json_str(s)).collect::<Vec<_>>().join(",")));
     kv(&mut j, "nesting_table", format!("{{{}}}", nest_table.iter().map(|(k, v)| format!("{}:{}", json_str(k), v)).collect::<Vec<_>>().join(",")));
     kv(&mut j, "nested_record_probe_depth30_20s", json_str(&nested_record_probe));
+    kv(&mut j, "known_libclang_null_tu", format!("{{\"probe\":{},\"probe_in_region\":{},\"mutant_hits\":{}}}", json_str(&k5_probe), k5_probe_known, k5_hits));
+    kv(&mut j, "known_token_option_panics", format!("[{}]", k3_panics.iter().map(|s| json_str(s)).collect::<Vec<_>>().join(",")));
+    kv(&mut j, "known_explicit_padding_union", format!("{{\"probe\":{},\"probe_in_region\":{},\"random_option_set_hits\":{},\"example\":{}}}", json_str(&k4_probe), k4_probe_known, k4_hits, json_str(&k4_example)));
     kv(&mut j, "option_sets", optsets.len().to_string());
     kv(&mut j, "flag_space", flagspace.len().to_string());
     kv(&mut j, "flags_exercised", flags_exercised.len().to_string());
